@@ -326,20 +326,21 @@ pub fn parse_and_bind<R: FsModuleResolver>(
         let renamed = unresolved.renamed;
         let js_word = unresolved.name.clone();
         let k = unresolved.name.to_string();
+        // a name may have a type meaning and a value meaning at once (`const N = ...; type N = ...`):
+        // `export { N }` exports both
+        let mut found = false;
         if let Some(ts_type) = locals.content.type_aliases.get(&k) {
             symbol_exports.insert_type(
                 renamed.to_string(),
                 Rc::new(SymbolExport::TsType {
                     decl: ts_type.clone(),
                     original_file: file_name.clone(),
-                    name: k,
+                    name: k.clone(),
                     span: ts_type.span,
                 }),
             );
-            continue;
-        }
-
-        if let Some(enum_) = locals.content.enums.get(&k) {
+            found = true;
+        } else if let Some(enum_) = locals.content.enums.get(&k) {
             symbol_exports.insert_type(
                 renamed.to_string(),
                 Rc::new(SymbolExport::TsEnumDecl {
@@ -348,9 +349,7 @@ pub fn parse_and_bind<R: FsModuleResolver>(
                 }),
             );
             continue;
-        }
-
-        if let Some(intf) = locals.content.interfaces.get(&k) {
+        } else if let Some(intf) = locals.content.interfaces.get(&k) {
             symbol_exports.insert_type(
                 renamed.to_string(),
                 Rc::new(SymbolExport::TsInterfaceDecl {
@@ -359,7 +358,7 @@ pub fn parse_and_bind<R: FsModuleResolver>(
                     span: intf.span,
                 }),
             );
-            continue;
+            found = true;
         }
 
         if let Some(v) = locals.content.exprs.get(&k) {
@@ -385,6 +384,10 @@ pub fn parse_and_bind<R: FsModuleResolver>(
                     original_file: file_name.clone(),
                 }),
             );
+            continue;
+        }
+
+        if found {
             continue;
         }
 
